@@ -105,6 +105,8 @@ type source struct {
 	// directed interleaving "source reorganised while a store callback is running": armed
 	// by the controller, taken by the next OpStore listener callback (c06_test.go)
 	cbHook atomic.Pointer[cbHook]
+	// same, taken by the next OpFetch listener callback (a fetcher has just received a block)
+	fetchHook atomic.Pointer[cbHook]
 
 	// one-shot faults: the next BlockByNumber request for exactly the node's current
 	// head height (the request revertTask makes) / the next BlockHeaderLatest request
@@ -854,6 +856,54 @@ func (c *controller) run(ctx context.Context) {
 				wcancel()
 			}
 			close(hk.release)
+			if err != nil {
+				c.err = err
+				return
+			}
+		case "there-and-back":
+			// The source switches to a fork and, while a fetcher of the node holds a block it has
+			// just been handed (inside its OpFetch callback, before the block reaches the store
+			// pipeline), returns to the chain it had orphaned, extended by K blocks. The node then
+			// holds a self-consistent block of a fork the source no longer has; the blocks it stored
+			// are all canonical again. Prefix consistency holds at every answer.
+			s := c.src
+			back, backTip := c.cur, c.tip
+			f := max(c.minFork, min(n-1-act.Depth, n-1))
+			if act.Rel {
+				f = max(c.minFork, min(int(local)+1-act.Depth, n-1))
+			}
+			if err := c.fork(f, n-f+1, applied{Kind: "reorg", LocalAt: local, Note: "first half of there-and-back"}); err != nil {
+				c.err = err
+				return
+			}
+			hk := &cbHook{entered: make(chan int64, 1), release: make(chan struct{})}
+			s.fetchHook.Store(hk)
+			grace := time.NewTimer(4 * c.grace)
+			var at int64 = -1
+			select {
+			case at = <-hk.entered:
+				grace.Stop()
+			case <-grace.C:
+				if !s.fetchHook.CompareAndSwap(hk, nil) {
+					at = <-hk.entered
+				}
+			case <-ctx.Done():
+				grace.Stop()
+				s.fetchHook.CompareAndSwap(hk, nil)
+				return
+			}
+			next := back.Prefix(back.Len())
+			err := c.g.Extend(next, backTip, 1+act.K%2)
+			if err == nil {
+				note := "no fetch completed after the switch"
+				if at >= 0 {
+					note = fmt.Sprintf("a fetcher of the node holds block #%d handed out while the fork was canonical", at)
+				}
+				c.publish(next, backTip, applied{Kind: "return-to-orphaned-chain", LocalAt: c.src.head.Load().num, Fork: f, Note: note})
+			}
+			if at >= 0 {
+				close(hk.release)
+			}
 			if err != nil {
 				c.err = err
 				return
